@@ -29,7 +29,7 @@ MAP_OPS = ['store'] * 4 + ['multi'] * 2 + ['empty', 'abort']
 
 
 def shards(tier, seed):
-    return split(tier, seed, 5000, 80000, 40, 900)
+    return split(tier, seed, 12000, 400000, 40, 900)
 
 
 def make_storage(kind, d, FSM):
@@ -53,14 +53,35 @@ def run_case(sh, s, d, case):
     from zv.spec import battery
     rnd = random.Random(s)
     kind = rnd.choice(['file'] * 6 + ['mapping', 'demo', 'demo-file'])
+    if s % 11 == 0:
+        kind = 'demo-base'          # demo storage over a populated base: every query answered from changes-over-base (see also C16)
     mode = rnd.choice(['normal', 'normal', 'stall', 'back', 'mixed', 'jump'])
     FSM = recfs.install()
     recfs.LOG.enabled = False
     clk = clock.install(clock.FakeClock(mode=mode, rnd=random.Random(s + 1)))
-    st = make_storage(kind, d, FSM)
     mkind = 'file' if kind in ('file', 'demo-file') else 'mapping'
     from zv.driver import model_resolver
-    dr = Driver(st, rnd, kind=mkind, resolver=model_resolver)
+    bopts = {}
+    if kind == 'demo-base':
+        import ZODB.MappingStorage
+        import ZODB.DemoStorage
+        ZODB.DemoStorage.random = random.Random(s + 2)
+        base = ZODB.MappingStorage.MappingStorage()
+        bdr = Driver(base, rnd, kind='mapping')
+        bdr.oids = bdr.oids[:5]
+        for _ in range(rnd.randrange(1, 6)):
+            bdr.step(MAP_OPS)
+        st = ZODB.DemoStorage.DemoStorage(base=base)
+        nbase = len(bdr.spec.txns)
+        dr = Driver(st, rnd, kind='mapping', spec=bdr.spec.copy(), resolver=model_resolver)
+        dr.undoable_from = nbase
+        dr.uid = 5000
+        dr.trace = ['base:' + x for x in bdr.trace]
+        dr.oids = bdr.oids
+        bopts = dict(undolog=False, absent_equiv=True)
+    else:
+        st = make_storage(kind, d, FSM)
+        dr = Driver(st, rnd, kind=mkind, resolver=model_resolver)
     dr.mix_classes = kind == 'file' and rnd.random() < 0.4
     if kind == 'mapping' or kind == 'demo':
         dr.oids = dr.oids[:5]
@@ -81,7 +102,9 @@ def run_case(sh, s, d, case):
                     sh.violation('c04:tids-not-strictly-increasing', {'clock': mode, 'tids': tids[-2:], 'trace': dr.trace}, case)
                     return None
             if i == nops - 1 or rnd.random() < 0.2:
-                n, df = battery(st, dr.spec, mkind, counter=sh.count, iternext=(kind == 'file'))
+                if kind == 'demo-base':
+                    bopts['nchanges_oids'] = len({o for tx in dr.spec.txns[nbase:] for (o, _) in tx.records})
+                n, df = battery(st, dr.spec, mkind, counter=sh.count, iternext=(kind == 'file'), **bopts)
                 if df:
                     diffs = [('after-op-%d' % i,) + x for x in df[:3]]
                     break
